@@ -388,7 +388,25 @@ pub fn query_from_json(v: &Value) -> Result<SearchQuery, String> {
 pub fn load_replay(path: &str) -> Value {
     let text = std::fs::read_to_string(path).unwrap_or_else(|e| engine::machinery_failure(&format!("{path}: {e}")));
     let v: Value = serde_json::from_str(&text).unwrap_or_else(|e| engine::machinery_failure(&format!("{path}: {e}")));
-    if v.get("replay").is_some() { v["replay"].clone() } else { v }
+    if v.get("replay").is_some() {
+        let mut r = v["replay"].clone();
+        r["signature_of_case"] = v["signature"].clone();
+        r
+    } else {
+        v
+    }
+}
+
+/// `Report::finish` for a replay: prints the verdict lines but keeps the
+/// evidence file of the last full run (a replay is not coverage).
+pub fn finish_replay(report: &engine::Report) -> i32 {
+    let path = format!("{}/evidence/{}.json", engine::VERIF_ROOT, report.property);
+    let old = std::fs::read(&path).ok();
+    let rc = report.finish();
+    if let Some(o) = old {
+        let _ = std::fs::write(&path, o);
+    }
+    rc
 }
 
 // ---------------------------------------------------------------------------
